@@ -39,10 +39,13 @@ def scene_case(spec):
     # ---- correspondence: implementation vs extracted model, stage by stage
     impl = P.impl_pipeline(radi, src, c, dt, dur, K, [])
     tok = P.model_session(radi, src, c, dt, dur, K, [])
-    mism, mu = P.compare_stages(radi, impl, run_driver(tok), K, [], dur, dt)
+    mism, mu = P.compare_stages(radi, impl, run_driver(tok), K, [], dur, dt, src=src)
     out["max_ulp"] = mu
     out["traces"] = 1
     for m in mism:
+        if m.get("rejected"):
+            out["rejected"] = out.get("rejected", 0) + 1
+            continue
         m.update(case=tag)
         out["mismatches"].append(m)
 
